@@ -19,6 +19,7 @@ import time
 from typing import Any
 
 from mc import c15_build
+from mc.kernel import run_isolated
 from mc.c05_gen import module_source, strip
 
 MODNAME = c15_build.MODNAME
@@ -116,7 +117,8 @@ def build_module(job: dict) -> dict:
     t0 = time.time()
     t_filter = 0.0
     info: dict[str, Any] = {}
-    for attempt in range(4):
+    filtering = job.get("filter", True)
+    for attempt in range(6):
         text, spans = module_source(units)
         for fn, src in support.items():
             with open(os.path.join(bdir, fn), "w") as f:
@@ -124,10 +126,10 @@ def build_module(job: dict) -> dict:
         with open(os.path.join(bdir, MODNAME + ".py"), "w") as f:
             f.write(text)
         files = sorted(support) + [MODNAME + ".py"]
-        if attempt == 0 and job.get("filter", True):
+        if filtering:
             tf = time.time()
-            errs = typecheck(bdir, files)
-            t_filter = time.time() - tf
+            errs = run_isolated(typecheck, bdir, files, timeout=job.get("timeout", 1500))
+            t_filter += time.time() - tf
             mine = [e for e in errs if e[0] == MODNAME + ".py"]
             other = [e for e in errs if e[0] != MODNAME + ".py"]
             bad, orphan = _units_at(spans, [e[1] for e in mine])
@@ -141,7 +143,10 @@ def build_module(job: dict) -> dict:
                 units = [u for u in units if u["name"] not in bad]
                 if not units:
                     return {"ok": False, "stage": "typecheck", "log": "every unit rejected", "dir": d}
+                # a blocking (syntax) error hides all others: check again without the rejected units
+                filtering = any("syntax" in e[2] for e in mine)
                 continue
+            filtering = False
         if job["layout"] == "single" and not support:
             c15_build.SETUP = _ORIG_SETUP
         else:
@@ -149,6 +154,7 @@ def build_module(job: dict) -> dict:
                                                   multi_file=job["layout"] == "multi_file",
                                                   separate=job["layout"] == "separate").replace("{{opt}}", "{opt}")
         shutil.rmtree(os.path.join(bdir, "build"), ignore_errors=True)
+        c15_build.build_env = _build_env if repo_root() != "/repo" else _ORIG_ENV
         info = c15_build.build({"dir": bdir, "opt": job["opt"], "source": text, "timeout": job.get("timeout", 1500)})
         log_tail = info["log"]
         if info["ok"]:
@@ -167,7 +173,11 @@ def build_module(job: dict) -> dict:
                 rejected.setdefault(n, "mypyc: " + msg)
         units = [u for u in units if u["name"] not in bad]
         if not units:
-            return {"ok": False, "stage": "build", "log": "every unit rejected", "dir": d}
+            # every candidate of this module is outside what mypyc compiles: nothing to evaluate
+            return {"ok": True, "dir": d, "build_dir": bdir, "ref_dir": rdir, "modules": [], "kept": [],
+                    "rejected": rejected, "seconds": info["seconds"], "filter_seconds": round(t_filter, 2),
+                    "total_seconds": round(time.time() - t0, 2), "lib_rt": None, "reached": [], "c_lines": 0,
+                    "opt": job["opt"], "layout": job["layout"]}
     else:
         return {"ok": False, "stage": "build", "log": "too many attempts\n" + log_tail[-3000:], "dir": d}
     # the interpreter's copy of the same source text
@@ -184,6 +194,19 @@ def build_module(job: dict) -> dict:
 
 
 _ORIG_SETUP = c15_build.SETUP
+_ORIG_ENV = c15_build.build_env
+
+
+def repo_root() -> str:
+    """The mypy/mypyc tree that is compiled: /repo, or a scratch git worktree of it named by C05_REPO (used only
+    to demonstrate that seeded defects are detected without touching /repo)."""
+    return os.environ.get("C05_REPO") or "/repo"
+
+
+def _build_env() -> dict[str, str]:
+    env = _ORIG_ENV()
+    env["PYTHONPATH"] = repo_root()
+    return env
 
 
 # --------------------------------------------------------------------------- running the driver
